@@ -10,7 +10,7 @@ from .world import VERIF
 
 EXPORTS = [("native/exports/segment.rs", "src/query/segment.rs"), ("native/exports/selector.rs", "src/query/selector.rs"),
            ("native/exports/comparison.rs", "src/query/comparison.rs"), ("native/exports/test_function.rs", "src/query/test_function.rs")]
-MODULES = ["mirror.rs", "kjson.rs", "gen.rs", "checks.rs", "main.rs"]
+MODULES = ["mirror.rs", "kjson.rs", "gen.rs", "print.rs", "checks.rs", "main.rs"]
 
 # property -> [(group, [obligation prefixes that belong to the property])]
 GROUPS = {
@@ -20,11 +20,12 @@ GROUPS = {
     "C03": [("e2e", ["e2e.path"]), ("pointer_text", ["Pointer::key.text", "Pointer::idx.text"]), ("name_lookup", ["process_key.path"]),
             ("descendant", ["process_descendant.path"]), ("requery", ["path.requery", "path.injective"])],
     "C04": [("cmp_struct", ["eq.structural", "lt.order"])],
-    "C05": [("e2e_filter", ["e2e_filter.members", "e2e_filter.order"])],
+    "C05": [("e2e_filter", ["e2e_filter.members", "e2e_filter.order"]), ("text_filter", ["text_filter.members", "text_filter.order"])],
     "C08": [("e2e", ["e2e.no_panic", "e2e.ok"]), ("arith", ["process_index.no_panic", "process_slice.no_panic"]), ("regex", ["regex.no_panic"]),
             ("descendant", ["process_descendant.no_panic"]), ("name_lookup", ["process_key.no_panic"])],
     "C10": [("regex", ["regex.match", "regex.search", "regex.no_panic"]), ("e2e_fn", ["e2e_fn.members", "e2e_fn.no_panic"])],
-    "C11": [("arith", ["process_index.select", "process_slice.select", "process_index.no_panic", "process_slice.no_panic"])],
+    "C11": [("arith", ["process_index.select", "process_slice.select", "process_index.no_panic", "process_slice.no_panic"]),
+            ("text_arith", ["text_arith.members", "text_arith.order"])],
     "C15": [("e2e", ["e2e.view_independent"]), ("cmp_struct", ["eq.structural", "lt.order"])],
 }
 # Verus unit -> bounded groups that can produce a failing input for it
